@@ -529,3 +529,53 @@ func ZZ_C15_templateRestrictsTheChoice() {
 	nondet.Observe("selected", len(status.Nodes))
 	nondet.Reach("C15.template.affinity-matches-but-pool-does-not", err == nil && nEligible == replicas && !eligible["node0"])
 }
+
+// ZZ_C15_standardTolerationsCount: "is eligible for the pod" — for the pod the controller really
+// creates, which carries the standard DaemonSet tolerations on top of the template's: a canary node
+// that is cordoned, NotReady, unreachable or under pressure stays eligible (and selected), one with a
+// custom untolerated taint does not.  Three nodes, node0 with one of those taints; either all three
+// are requested, or two with node0 selected earlier.
+func ZZ_C15_standardTolerationsCount() {
+	key, effect, tolerated := "", corev1.TaintEffectNoSchedule, true
+	switch nondet.String("node0.taint", "none", "unschedulable", "not-ready", "unreachable", "disk-pressure", "custom") {
+	case "unschedulable":
+		key = "node.kubernetes.io/unschedulable"
+	case "not-ready":
+		key, effect = "node.kubernetes.io/not-ready", corev1.TaintEffectNoExecute
+	case "unreachable":
+		key, effect = "node.kubernetes.io/unreachable", corev1.TaintEffectNoExecute
+	case "disk-pressure":
+		key = "node.kubernetes.io/disk-pressure"
+	case "custom":
+		key, tolerated = "dedicated", false
+	}
+	allThree := nondet.Bool("allThreeRequested")
+	replicas := 2
+	if allThree {
+		replicas = 3
+	}
+	r := intstr.FromInt(replicas)
+	ds := zzEDS("ns", "foo", "B", &datadoghqv1alpha1.ExtendedDaemonSetSpecStrategyCanary{Replicas: &r})
+	c := fakeapi.New()
+	for i := 0; i < 3; i++ {
+		n := &corev1.Node{ObjectMeta: metav1.ObjectMeta{Name: "node" + strconv.Itoa(i)}}
+		if i == 0 && key != "" {
+			n.Spec.Taints = []corev1.Taint{{Key: key, Effect: effect}}
+		}
+		c.Nodes = append(c.Nodes, n)
+	}
+	status := &datadoghqv1alpha1.ExtendedDaemonSetStatusCanary{ReplicaSet: "foo-b"}
+	if !allThree {
+		status.Nodes = []string{"node0"}
+	}
+	rs := zzRS(ds, "B", "foo-b", nondet.Base().Add(-time.Minute))
+	err := zzReconciler(c).selectNodes(logr.Logger{}, ds, &ds.Spec, rs, status)
+	if tolerated {
+		nondet.Assert("C15.tolerations.tolerated-taint-keeps-the-node-eligible", err == nil && len(status.Nodes) == replicas && zzHas(status.Nodes, "node0"))
+	} else {
+		nondet.Assert("C15.tolerations.untolerated-taint-excludes-the-node", !zzHas(status.Nodes, "node0") || err != nil)
+		nondet.Assert("C15.tolerations.error-when-too-few", nondet.Implies(allThree, err != nil))
+	}
+	nondet.Observe("selected", len(status.Nodes))
+	nondet.Reach("C15.tolerations.cordoned-node-kept", tolerated && key != "" && !allThree && err == nil)
+}
